@@ -54,6 +54,7 @@ fn specs(max_n: usize) -> Vec<GraphSpec> {
                         .enumerate()
                         .map(|(i, (a, b))| (*a, *b, if i % 2 == 0 { Kind::Logic } else { Kind::Contains }))
                         .collect(),
+                    batches: vec![],
                 });
             }
             true
@@ -118,6 +119,7 @@ fn cfgs_for(prop: &str, n: usize) -> Vec<RunCfg> {
                             abort_after: None,
                             instant: vec![],
                             coop: false,
+                            drop_sender: false,
                         });
                     }
                 }
